@@ -51,4 +51,17 @@ Ltac inv_res := repeat inv_res1.
 Lemma U128_lt_U256 : U128_MAX < U256_MAX. Proof. vm_compute. reflexivity. Qed.
 Lemma U256_lt_U512 : U256_MAX < U512_MAX. Proof. vm_compute. reflexivity. Qed.
 Lemma U64_lt_U128 : U64_MAX < U128_MAX. Proof. vm_compute. reflexivity. Qed.
+Lemma U128_DEC2_le_U256 : U128_MAX * DEC * DEC <= U256_MAX. Proof. vm_compute. discriminate. Qed.
 Global Opaque U256_MAX U512_MAX.
+
+(* aggressive inversion of a monadic computation known to succeed: splits binds, case-splits matches/ifs *)
+Ltac inv_step :=
+  match goal with
+  | H : bind ?r _ = Ok _ |- _ =>
+      let v := fresh "v" in let Hv := fresh "Hv" in apply bind_ok in H; destruct H as [v [Hv H]]
+  | H : Ok _ = Ok _ |- _ => inversion H; subst; clear H
+  | H : Err _ = Ok _ |- _ => discriminate H
+  | H : (if ?b then _ else _) = Ok _ |- _ => destruct b eqn:?
+  | H : match ?x with _ => _ end = Ok _ |- _ => destruct x eqn:?
+  end.
+Ltac inv_all := repeat inv_step.
